@@ -33,22 +33,77 @@ pub fn check(pat: &[u64], text: &[u64], acc: &mut Acc) -> Result<(), Mismatch> {
     if ends.windows(2).any(|w| w[1] - w[0] >= pat.len()) {
         acc.count("kmp_disjoint_repeated_matches");
     }
+    if ends.windows(2).any(|w| w[1] - w[0] + 2 <= pat.len()) {
+        acc.count("kmp_overlap_by_two_or_more");
+    }
+    if text == pat {
+        acc.count("kmp_text_is_exactly_the_pattern");
+    }
+    // textbook prefix function / automaton run in the harness, only to count fallback chains
+    {
+        let mut pf = vec![0usize; pat.len()];
+        let mut k = 0;
+        let mut two = false;
+        for i in 1..pat.len() {
+            let mut steps = 0;
+            while k > 0 && pat[k] != pat[i] {
+                k = pf[k - 1];
+                steps += 1;
+            }
+            two |= steps >= 2;
+            if pat[k] == pat[i] {
+                k += 1;
+            }
+            pf[i] = k;
+        }
+        if two {
+            acc.count("kmp_prefix_function_needs_two_fallback_steps");
+        }
+        let mut q = 0;
+        let mut two = false;
+        for c in text {
+            let mut steps = 0;
+            if q == pat.len() {
+                q = pf[q - 1];
+            }
+            while q > 0 && pat[q] != *c {
+                q = pf[q - 1];
+                steps += 1;
+            }
+            two |= steps >= 2;
+            if pat[q] == *c {
+                q += 1;
+            }
+        }
+        if two {
+            acc.count("kmp_search_needs_two_fallback_steps");
+        }
+    }
     let m = Matcher::new(Nevec::new_with_tail(pat[0], pat[1..].to_vec()));
     let sub: Vec<u64> = m.substring().into_iter().copied().collect();
     if sub != pat {
         // the accessor is not part of the property (which is about the reported positions): recorded only
         acc.class("kmp: Matcher::substring() differs from the pattern given (recorded, not judged)");
     }
-    // two searches from one matcher: the second must not see the state of the first
-    for round in 0..2 {
-        let mut s = m.start();
+    // two searches from one matcher (the second must not see the state of the first), one from a
+    // clone, one from a matcher that went through serde_json (its tables are serialised)
+    let cloned = m.clone();
+    let revived: Matcher<u64> = serde_json::to_string(&m)
+        .map_err(|e| mismatch("serialises", e.to_string(), "serde_json::to_string of the matcher"))
+        .and_then(|t| serde_json::from_str(&t).map_err(|e| mismatch("deserialises", format!("{e} on {t}"), "serde_json::from_str of the matcher")))?;
+    for round in 0..4 {
+        let mut s = match round {
+            0 | 1 => m.start(),
+            2 => cloned.start(),
+            _ => revived.start(),
+        };
         let got: Vec<bool> = text.iter().map(|c| s.next(c)).collect();
         if got != want {
             let pos = got.iter().zip(want.iter()).position(|(a, b)| a != b).unwrap_or(0);
             return Err(mismatch(
                 format!("matches end at {ends:?}"),
                 format!("matches end at {:?}", got.iter().enumerate().filter(|x| *x.1).map(|x| x.0).collect::<Vec<_>>()),
-                format!("pattern {:?} in text {:?}: first difference at position {pos} (search {} from the same matcher)", letters(pat), letters(text), round + 1),
+                format!("pattern {:?} in text {:?}: first difference at position {pos} (search {}: 1, 2 same matcher, 3 clone, 4 after serde round trip)", letters(pat), letters(text), round + 1),
             ));
         }
     }
